@@ -12,7 +12,7 @@ def plan(prop, tier):
     runs = []
     n = 10 if q else 80
     for i in range(n):
-        threads = [16, 8, 16, 5, 16, 12][i % 6]
+        threads = [16, 8, 24, 5, 16, 12, 32, 16][i % 8]     # more threads than CPUs: calls get preempted half-way
         calls = 2500 if q else 8000
         runs.append(('tsan', SEED * 1000 + i, (threads, calls, 'custom' if i % 2 else 'default')))
     return ['tsan'], [('all', 0, runs)]
